@@ -269,6 +269,25 @@ Case gen() {
     ST.count("many_or_long_open_subjects");
   }
   if (G::chance(35)) { int pct = (int)G::range(20, 60); for (auto& p : open) GEN::axisAlignSome(p, pct); }   // horizontal / vertical open segments
+  if (G::chance(15)) {
+    // almost horizontal open segments (|dx| > 100 |dy|) right across the scene: the engine corrects intersection points
+    // of such edges that fall outside the scanbeam, a path ordinary slopes never take
+    int m = (int)G::range(1, 3);
+    for (int k = 0; k < m; ++k) {
+      int64_t y0 = G::sym(R), dy = G::sym(std::max<int64_t>(1, R / 150));
+      Path64 p = {Point64(-R - G::range(0, R / 4), y0), Point64(R + G::range(0, R / 4), y0 + dy)};
+      if (G::coin()) p.push_back(Point64(p[1].x - G::range(1, R), p[1].y + G::sym(R / 2)));
+      if (G::coin()) std::reverse(p.begin(), p.end());
+      open.push_back(p);
+      // a small far-away subject triangle with a vertex at (almost) the level of the shallow segment: a scanline right
+      // next to its crossings with the closed edges, without coming near the segment itself
+      if (G::chance(70)) {
+        int64_t yv = y0 + G::range(0, 1) * dy + G::sym(2), xv = 3 * R + G::range(0, R);
+        c.p["subj"].push_back(Path64{Point64(xv, yv), Point64(xv + 50 + G::range(0, 50), yv + 40 + G::range(0, 30)), Point64(xv + G::range(5, 20), yv + 90 + G::range(0, 30))});
+      }
+    }
+    ST.count("almost_horizontal_open_segments");
+  }
   c.p["open"] = open;
   c.i["rev"] = G::chance(30);
   if (G::chance(25)) c.i["dprec"] = G::range(0, 3);
